@@ -162,6 +162,11 @@ def r5_manifest_hash(P, rep, ctx):
     rep.check("f.write(bytes(self))" in norm(sv.node), "C10.R5", sv.qual, "save writes exactly bytes(self)", sv.loc(), construct="IH5Manifest.save", message="IH5Manifest.save does not write bytes(self)")
     fm = P.func(f"{MF}._fresh_manifest")
     t = norm(fm.node)
+    fd = local_defs(fm)
+    skd = [norm(v) for k, v in fd.get("skel", []) if v is not None]
+    ubd = [norm(v) for k, v in fd.get("ub", []) if v is not None]
+    rep.check(skd == ["IH5Skeleton.for_record(self)"] and ubd == ["self._ublock(-1)"], "C10.R5", fm.qual, "the skeleton is always recomputed from the record as it is now (root attributes included)", fm.loc(), construct=f"skel = {skd}",
+              message=f"_fresh_manifest does not always recompute the skeleton from the current record (skel = {skd}): e.g. a patch that only changes root attributes keeps a stale skeleton, and a stub built from the manifest lacks those attribute names")
     rep.check("ub = self._ublock(-1)" in t and "skel = IH5Skeleton.for_record(self)" in t and "IH5Manifest.from_userblock(ub, skeleton=skel, exts={})" in t, "C10.R5", fm.qual, "the fresh manifest describes the record's current skeleton and newest user block", fm.loc(), construct="_fresh_manifest", message="_fresh_manifest does not use the newest user block and the current skeleton")
     fu = P.func(f"{M}.IH5Manifest.from_userblock")
     t = norm(fu.node)
